@@ -126,9 +126,14 @@ def gen_cases(rng, tier):
         tokpat = rng.choice(TOKPATS)
         # a fifth of the programs are loaded from files with `<` includes instead of from a string
         files = rng.randrange(1, 10 ** 6) if rng.random() < 0.2 else None
+        # a constructor default that the per-call activation overrides (also by an empty one)
+        ctor = rng.choice([["m1"], ["m1", "m2"], ["m2"], []]) if rng.random() < 0.3 else None
         for s in strings + extra:
             if terminates(p, s, active):
                 cases.append({"k": "repp", "prog": p, "active": active, "s": s, "tokpat": tokpat})
+                if ctor is not None and len(s) >= 1 and rng.random() < 0.3:
+                    cases.append({"k": "repp", "prog": p, "active": active, "s": s, "tokpat": tokpat,
+                                  "ctor_active": ctor})
                 if files is not None and len(s) >= 2 and rng.random() < 0.3:
                     cases.append({"k": "repp", "prog": p, "active": active, "s": s, "tokpat": tokpat,
                                   "files": files})
@@ -217,6 +222,12 @@ def normalise(items, seen=None):
     return out
 
 
+def call_kw(case):
+    """per-call activation: cases with a constructor default (`ctor_active`) pass the effective
+    activation explicitly with every call, also when it is empty"""
+    return {"active": list(case["active"])} if "ctor_active" in case else {}
+
+
 def build(case):
     import warnings
     warnings.simplefilter("ignore")
@@ -225,7 +236,7 @@ def build(case):
     main, modules = render(prog)
     mods = {name: repp.REPP.from_string(text, name=name) for name, text in modules.items()}
     if case.get("files") is None:
-        r = repp.REPP.from_string(main, modules=mods, active=case["active"])
+        r = repp.REPP.from_string(main, modules=mods, active=case.get("ctor_active", case["active"]))
         return r, prog
     # the same program loaded from files: contiguous runs of lines moved to included files
     # (`<file`, also nested), external modules found as <name>.rpp next to the main file
@@ -255,7 +266,7 @@ def build(case):
                 f.write("\n".join(inc) + "\n")
         with open(os.path.join(d, "main.rpp"), "w") as f:
             f.write("\n".join(lines) + "\n")
-        r = repp.REPP.from_file(os.path.join(d, "main.rpp"), active=case["active"])
+        r = repp.REPP.from_file(os.path.join(d, "main.rpp"), active=case.get("ctor_active", case["active"]))
     finally:
         shutil.rmtree(d, ignore_errors=True)
     return r, prog
@@ -286,7 +297,7 @@ def run_impl(case):
     steps = []
     orc = {}
     result = None
-    for st in r.trace(case["s"], verbose=True):
+    for st in r.trace(case["s"], verbose=True, **call_kw(case)):
         if hasattr(st, "operation"):
             steps.append({"in": st.input, "out": st.output, "applied": bool(st.applied),
                           "smap": list(st.startmap), "emap": list(st.endmap)})
@@ -298,7 +309,7 @@ def run_impl(case):
         else:
             result = {"string": st.string, "smap": list(st.startmap), "emap": list(st.endmap)}
     tms = [_mt(m, 0) for m in re.finditer(case["tokpat"], result["string"])]
-    lat = r.tokenize(case["s"], pattern=case["tokpat"])
+    lat = r.tokenize(case["s"], pattern=case["tokpat"], **call_kw(case))
     toks = [[t.lnk.data[0], t.lnk.data[1], t.form] for t in lat.tokens]
     return {"steps": steps, "result": result, "tms": tms, "toks": toks,
             "orc": [[k[0], k[1], v] for k, v in orc.items()]}
